@@ -1062,15 +1062,20 @@ func c14_8(c *core.Ctx, p *core.Prog) {
 // is in Close, or lies under (a) the miss of a lookup in that map — a schema
 // id that is not registered yet is being installed — and (b) the equality test
 // of the entry's payload type with the incoming payload's.
-func c07_16(c *core.Ctx, p *core.Prog) {
+func c07_16(c *core.Ctx, p *core.Prog) { retireRule(c, p, "streamConsumer", "Reader", "Release") }
+
+// c15_7: the same for the producer's map of stream producers and their IPC writers (Close).
+func c15_7(c *core.Ctx, p *core.Prog) { retireRule(c, p, "streamProducer", "Writer", "Close") }
+
+func retireRule(c *core.Ctx, p *core.Prog, typeName, resType, relMethod string) {
 	pk := p.Pkg(pkgArrowRecord)
 	if pk == nil {
 		c.Undecided("pkg", "?", "", "arrow_record not loaded")
 		return
 	}
-	tn, _ := pk.Types.Scope().Lookup("streamConsumer").(*types.TypeName)
+	tn, _ := pk.Types.Scope().Lookup(typeName).(*types.TypeName)
 	if tn == nil {
-		c.Undecided("type", "?", "", "streamConsumer not found")
+		c.Undecided("type", "?", "", typeName+" not found")
 		return
 	}
 	isSCMap := func(v ssa.Value) *types.Var {
@@ -1127,11 +1132,15 @@ func c07_16(c *core.Ctx, p *core.Prog) {
 				}
 				// (b) entry.payloadType == payload.Type
 				fx, fy := core.LoadedField(core.Canon(cmp.X)), core.LoadedField(core.Canon(cmp.Y))
-				if fx != nil && fy != nil {
-					ox, oy := core.NamedOf(fx.X.Type()), core.NamedOf(fy.X.Type())
-					if (ox != nil && ox.Obj() == tn) != (oy != nil && oy.Obj() == tn) && types.Identical(core.FieldVar(fx).Type(), core.FieldVar(fy).Type()) {
-						onType = true
+				ofEntry := func(fa *ssa.FieldAddr) bool {
+					if fa == nil {
+						return false
 					}
+					o := core.NamedOf(fa.X.Type())
+					return o != nil && o.Obj() == tn && strings.Contains(strings.ToLower(core.FieldName(fa)), "type")
+				}
+				if ofEntry(fx) != ofEntry(fy) && types.Identical(cmp.X.Type(), cmp.Y.Type()) {
+					onType = true
 				}
 			}
 			// comma-ok miss: if !ok { … }
@@ -1172,7 +1181,7 @@ func c07_16(c *core.Ctx, p *core.Prog) {
 					if !ok {
 						return false
 					}
-					if core.IsMethodOf(core.CalleeObj(cl), arrowIPC, "Reader", "Release") && isFieldLoad(cl.Call.Args[0], rdF) {
+					if core.IsMethodOf(core.CalleeObj(cl), arrowIPC, resType, relMethod) && isFieldLoad(cl.Call.Args[0], rdF) {
 						return true
 					}
 					// a helper of the stream consumer that releases its reader
@@ -1182,7 +1191,7 @@ func c07_16(c *core.Ctx, p *core.Prog) {
 					}
 					rel := false
 					core.EachInstr(h, func(x ssa.Instruction) {
-						if c2, ok := x.(*ssa.Call); ok && core.IsMethodOf(core.CalleeObj(c2), arrowIPC, "Reader", "Release") && isFieldLoad(c2.Call.Args[0], rdF) {
+						if c2, ok := x.(*ssa.Call); ok && core.IsMethodOf(core.CalleeObj(c2), arrowIPC, resType, relMethod) && isFieldLoad(c2.Call.Args[0], rdF) {
 							rel = true
 						}
 					})
@@ -1204,10 +1213,10 @@ func c07_16(c *core.Ctx, p *core.Prog) {
 				}
 				leak, _ := (core.PathQuery{Fn: fn, To: d, Avoid: isRelease, CutEdges: cut}).Exists()
 				c.Check(!leak, key+"|released", p.Pos(d.Pos()), core.FuncName(fn), "the entry's reader is released before the entry is forgotten (unless there is none yet)",
-					"an entry can be dropped from the map while its reader — in whatever state, a reader that failed still owns its dictionaries and last record — is not released: Close can no longer reach it, and the memory keeps counting against the limit, so decodable batches are refused")
+					"an entry can be dropped from the map while its "+strings.ToLower(resType)+" — in whatever state; one that failed still owns its dictionaries and last record — is not released ("+relMethod+"): Close can no longer reach it, so the memory is never returned (it keeps counting against the consumer's limit / stays allocated after the producer's Close)")
 			}
 			c.Check(len(msgs) == 0, key, p.Pos(d.Pos()), core.FuncName(fn), "an entry is retired only by a new schema id of its own payload type",
-				"a registered stream is dropped "+strings.Join(msgs, " and ")+": a sub-stream the batch merely did not mention (an empty related table is omitted by the producer) loses its reader, and its next payload — which carries no schema message — is refused together with every later one")
+				"a registered stream ("+typeName+") is dropped "+strings.Join(msgs, " and ")+": a sub-stream that is still live (an empty related table is merely omitted from a batch; an unchanged schema id keeps its IPC stream) loses its "+strings.ToLower(resType)+", so its next payload does not continue the IPC stream the peer holds — refused by the consumer, or a schema id restarted by the producer")
 		})
 	}
 }
@@ -1215,4 +1224,6 @@ func c07_16(c *core.Ctx, p *core.Prog) {
 func init() {
 	register("C07", &core.Rule{ID: "C07.16", Title: "a registered stream is retired only by a new schema id of its own payload type (or Close)", Mod: core.ModRoot, Floor: 1, Run: c07_16})
 	register("C14", &core.Rule{ID: "C14.13", Title: "a registered stream is retired only by a new schema id of its own payload type (or Close)", Mod: core.ModRoot, Floor: 1, Run: c07_16})
+	register("C15", &core.Rule{ID: "C15.7", Title: "a stream producer is forgotten only after its IPC writer was closed (the writer's retained dictionaries are returned to the allocator)", Mod: core.ModRoot, Floor: 1, Run: c15_7})
+	register("C12", &core.Rule{ID: "C12.11", Title: "a stream producer is retired only by a new schema of its own payload type, with its writer closed (a live schema id is never restarted)", Mod: core.ModRoot, Floor: 1, Run: c15_7})
 }
